@@ -61,14 +61,26 @@ claimed = {
    text="Bounded symbolic execution of every handshake codec of both stacks (real cryptobyte code included): forward unmarshal(marshal(m)) == m for arbitrary in-range fields with bounded list sizes, every ClientHello extension one at a time and all at once; reverse: arbitrary bytes framed as readHandshake frames them, accept => re-encoding reproduces the input (extension-free forms of the hellos); totality: no panic on arbitrary bytes.",
    note=NOTE_COMMON + "framing precondition of unmarshal (type byte and 24-bit length as readHandshake guarantees); hellos WITH extension blocks are covered in the forward direction and for totality only.",
    ref="section 6 C14"),
+ "C15": dict(
+   text="Bounded symbolic execution of the real DTLCP write path (maxPayloadSizeForWrite, writeRecordLocked, encrypt, writeHandshakeRecord, write/flush): PMTU arbitrary in {0 = default 1400} u [96, 20000], payload length arbitrary (symbolic) in 1..maxPayload, cipher none / GCM / CBC: exactly one datagram, at most PMTU bytes, at most 16384 bytes of plaintext, header length consistent; Write of a longer buffer (PMTU 96..98) is split into datagrams that each fit, in order, with consecutive sequence numbers; a buffered handshake flight of 2..3 records: every datagram must fit the PMTU (fails: known finding K3).",
+   note=NOTE_COMMON + "length-only cipher stubs (contents irrelevant); PMTU below 96 is outside (a CBC record cannot carry one byte below 77); the receive side (ReadFrom returns exactly the payload) is covered by the C16 connection harness for 1-byte payloads only.",
+   ref="section 6 C15"),
  "C16": dict(
-   text="Bounded model checking of dtlcp/replay.go by symbolic execution: (a) one replayWindow.check step from an ARBITRARY window state satisfying the representation invariant (covers histories of any length over the full 48-bit sequence space, window size arbitrary in [-4, 2^20]); (b) 3 (quick) / 4 (thorough) arbitrary checks from the initial state against a ghost 'seen' set. At-most-once, completeness inside max(32,min(size,64)), state frame on reject. This is the right level because the window is pure integer/bit arithmetic: the solver decides it for every value.",
-   note=NOTE_COMMON + "the Conn-level path (authentication before the window is consulted, ReadFrom vs Read) is not yet covered.",
+   text="Bounded symbolic execution: (a) one replayWindow.check step from an ARBITRARY window state satisfying the representation invariant (histories of any length, full 48-bit space, size in [-4, 2^20]) and 3/4 arbitrary checks from the initial state against a ghost 'seen' set: at most once, completeness inside max(32,min(size,64)), frame on reject; (b) an established DTLCP connection (epoch 1, ideal AEAD / CBC + unforgeable MAC): 2 genuine records from the real write path, then up to 3 (GCM) / 2 (CBC) deliveries, each a genuine datagram (any order, duplicates) or an ARBITRARY forgery with attacker-chosen epoch, through ReadFrom and through Read: only genuine payloads, each at most once, every genuine record that arrived is delivered the first time whatever forgeries preceded it.",
+   note=NOTE_COMMON + "E5-E7; under E7 (CBC = identity) a datagram differing from a genuine one only in the explicit IV counts as that genuine record; quick tier: at most one forgery per CBC run; 1-byte payloads.",
    ref="section 6 C16"),
  "C17": dict(
-   text="Bounded symbolic execution of the real fragmentBuffer against a reference reassembler: message length 1..5 (quick) / 1..9 (thorough), up to 3 fragments with every offset and length 0..len+1 (case split) and symbolic contents: refuses exactly the out-of-range fragments, complete() iff every byte is covered, assembled() equals the original whatever the order/overlap/duplication; hostile 24-bit offsets/lengths: no panic. Thin so far: split/reassembly through writeHandshakeRecord/readHandshake is being added.",
-   note=NOTE_COMMON + "fragment offsets and lengths are enumerated by case split (contents symbolic).",
+   text="Bounded symbolic execution of the real DTLCP fragmentation code: fragmentBuffer against a reference reassembler (message 1..5/9 bytes, up to 3 fragments with every offset/length 0..len+1, symbolic contents; hostile 24-bit offsets); writeHandshakeRecord with PMTU 26..34/40 and body 0..12/20 bytes: fragments keep type, total length and message sequence, are contiguous from 0, cover the body exactly, fit the PMTU, transcript gets the unfragmented encoding; readHandshake fed the real sender's fragments in EVERY order with an optional duplicate: returns exactly the unfragmented encoding (also to the transcript) and releases its pending buffer; hostile streams: announced length above 64 KiB refused whatever the fragment size, pending buffers bounded, no panic.",
+   note=NOTE_COMMON + "'same handshake result whatever PMTU either side uses' follows by composition with the transcript lemmas (C03) and is not run end to end.",
    ref="section 6 C17"),
+ "C18": dict(
+   text="Bounded symbolic execution with HMAC-SM3 as an uninterpreted function: marshalForCookie is injective on (version, random, session id of length 0/1/32, 0..2 suites, 1..2 compression methods); the cookie is HMAC(secret, address, parameters) with the address length-prefixed, so different (address, parameters) pairs authenticate different byte strings; verifyCookie accepts exactly the 32-byte value (candidates of length 0..33); effectiveCookieSecret = configured secret or 32 bytes drawn once per connection from Rand; the REAL serverHandshake cookie loop (cut M) against up to 3 arbitrary ClientHellos with no / arbitrary (1,31,32,33 bytes) / correct / stale (issued for an earlier hello) cookie: before a hello whose cookie is the value for its own fields nothing but HelloVerifyRequests (never larger than the request) is written, no certificate callback runs, and the server does not proceed.",
+   note=NOTE_COMMON + "E5; the rest of the handshake after the cookie phase is a stub that records that the server committed; private-key operations happen only after that point (doFullHandshake), which is checked by reading order, not by this harness.",
+   ref="section 6 C18"),
+ "C19": dict(
+   text="Bounded symbolic execution of per-endpoint lemmas the DTLS robustness argument rests on: RetransmitTimer (initial/max arbitrary up to 2^40 ns, 5/7 arbitrary operations): back-off doubles up to max and re-arms, reset restores the initial value, defaults 1 s / 60 s; the REAL client cookie phase against a server that answers every flight at once: the client never waits for input while it owes a flight (no timeout can expire without a fault); before completion the record layer never hands out application data; an overtaking ChangeCipherSpec+Finished datagram must not be fatal (fails: known finding F11).",
+   note=NOTE_COMMON + "NOT decided: that both endpoints complete within the retransmission schedule under every pattern of up to k lost / duplicated / reordered datagrams (a liveness property of two concurrent endpoints, timers and a network; the engine runs one sequential endpoint).",
+   ref="section 6 C19"),
  "C20": dict(
    text="Bounded symbolic execution of the real pa.detect / ReadFirstHeader / ProtocolDetectConn.Read (io.ReadFull, tlcp.Server, tls.Server executed from source): first bytes arbitrary, stream length 0..7/9, every segmentation of the transport reads, the three configurations: routed to TLCP iff major version byte 1 and TLCP config present, to TLS iff 3 and TLS config present, unsupported-protocol error otherwise, configuration error when the config is missing, short stream => error; the peeked header is replayed ahead of the live stream for 4/5 reads with every buffer size 0..6, nothing lost or duplicated.",
    note=NOTE_COMMON + "a full handshake through the adapter is outside (covered by the stacks' own properties once the byte stream is shown intact).",
